@@ -5,6 +5,7 @@ import NLV.Driver.Aio
 import NLV.Driver.Commands
 import NLV.Driver.DoneCallback
 import NLV.Driver.Lifecycle
+import NLV.Driver.RunProc
 
 def main (args : List String) : IO UInt32 := do
   match args with
@@ -15,4 +16,5 @@ def main (args : List String) : IO UInt32 := do
   | ["cmd"] => NLV.Driver.Cmd.main; return 0
   | ["done"] => NLV.Driver.Done.main; return 0
   | ["life"] => NLV.Driver.Life.main; return 0
+  | ["runproc"] => NLV.Driver.RunProc.main; return 0
   | _ => IO.eprintln "usage: nlvmodel <model>"; return 2
